@@ -10,7 +10,7 @@
 //!
 //! Byte strings are printed packed (7 bytes per uint63 literal, `B len [...]`), long ones are
 //! `let`-bound once per trace.
-use soroban_sdk::{contract, contractimpl, xdr::{FromXdr, ToXdr}, Bytes, BytesN, Env};
+use soroban_sdk::{contract, contractimpl, testutils::Ledger as _, xdr::{FromXdr, ToXdr}, Bytes, BytesN, Env};
 use std::collections::HashMap;
 use std::ops::Bound;
 use stellar_accounts::verifiers::{
@@ -55,6 +55,13 @@ impl Lib {
         webauthn::validate_user_present_bit_set(&e, f as u8);
         webauthn::validate_user_verified_bit_set(&e, f as u8);
         webauthn::validate_backup_eligibility_and_state(&e, f as u8);
+    }
+    pub fn flag_one(e: Env, which: u32, f: u32) {
+        match which {
+            0 => webauthn::validate_user_present_bit_set(&e, f as u8),
+            1 => webauthn::validate_user_verified_bit_set(&e, f as u8),
+            _ => webauthn::validate_backup_eligibility_and_state(&e, f as u8),
+        }
     }
     pub fn type_chk(e: Env, ty: Bytes) {
         let t = bv(&ty);
@@ -166,6 +173,150 @@ fn json_oracle(cd: &[u8]) -> Option<(Vec<u8>, Vec<u8>)> {
 }
 
 // ---------------------------------------------------------------------------------------------
+// Independent reader of client data (same algorithm as coq/Model/ClientDataSpec.v, which re-reads the
+// printed bytes in the monitor): RFC 8259 object, top-level "type" / "challenge" string members.
+// It shares no code with serde / serde-json-core / the repo's ClientDataJson.
+// ---------------------------------------------------------------------------------------------
+#[derive(Clone, Debug, PartialEq)]
+enum Cd { Plain(Vec<u8>, Vec<u8>), Invalid, Other }
+#[derive(Debug)]
+enum Stop { Invalid, Other }
+#[derive(Clone, PartialEq)]
+enum Field { None, Str(Vec<u8>), Bad, Undecided }
+struct Js<'a> { s: &'a [u8], i: usize, fuel: usize }
+impl<'a> Js<'a> {
+    fn ws(&mut self) { while self.i < self.s.len() && matches!(self.s[self.i], 32 | 9 | 10 | 13) { self.i += 1; } }
+    fn peek(&self) -> Option<u8> { self.s.get(self.i).copied() }
+    /// after the opening quote; returns (raw, had_escape)
+    fn string(&mut self) -> Result<(Vec<u8>, bool), Stop> {
+        let mut raw = vec![]; let mut esc = false;
+        loop {
+            let c = self.peek().ok_or(Stop::Invalid)?; self.i += 1;
+            if c == b'"' { return Ok((raw, esc)); }
+            if c == b'\\' {
+                let d = self.peek().ok_or(Stop::Invalid)?; self.i += 1;
+                match d {
+                    b'"' | b'\\' | b'/' | b'b' | b'f' | b'n' | b'r' | b't' => {}
+                    b'u' => { let h = self.s.get(self.i..self.i + 4).ok_or(Stop::Other)?; if !h.iter().all(|x| x.is_ascii_hexdigit()) { return Err(Stop::Other); } }
+                    _ => return Err(Stop::Other),
+                }
+                raw.push(c); raw.push(d); esc = true; continue;
+            }
+            if c < 32 { return Err(Stop::Other); }
+            raw.push(c);
+        }
+    }
+    fn digits1(&mut self) -> Result<(), Stop> {
+        if !self.peek().map(|c| c.is_ascii_digit()).unwrap_or(false) { return Err(Stop::Invalid); }
+        while self.peek().map(|c| c.is_ascii_digit()).unwrap_or(false) { self.i += 1; }
+        Ok(())
+    }
+    fn number(&mut self) -> Result<(), Stop> {
+        if self.peek() == Some(b'-') { self.i += 1; }
+        match self.peek() { Some(b'0') => { self.i += 1; } Some(b'1'..=b'9') => { self.digits1()?; } _ => return Err(Stop::Invalid) }
+        if self.peek() == Some(b'.') { self.i += 1; self.digits1()?; }
+        if matches!(self.peek(), Some(b'e') | Some(b'E')) { self.i += 1; if matches!(self.peek(), Some(b'+') | Some(b'-')) { self.i += 1; } self.digits1()?; }
+        Ok(())
+    }
+    fn lit(&mut self, w: &[u8]) -> Result<(), Stop> { if self.s[self.i..].starts_with(w) { self.i += w.len(); Ok(()) } else { Err(Stop::Invalid) } }
+    fn value(&mut self) -> Result<(), Stop> {
+        if self.fuel == 0 { return Err(Stop::Other); } self.fuel -= 1;
+        match self.peek().ok_or(Stop::Invalid)? {
+            b'"' => { self.i += 1; self.string()?; Ok(()) }
+            b'{' => { self.i += 1; self.ws(); self.members(&mut None) }
+            b'[' => {
+                self.i += 1; self.ws();
+                if self.peek() == Some(b']') { self.i += 1; return Ok(()); }
+                loop {
+                    if self.fuel == 0 { return Err(Stop::Other); } self.fuel -= 1;
+                    self.value()?; self.ws();
+                    match self.peek() { Some(b',') => { self.i += 1; self.ws(); } Some(b']') => { self.i += 1; return Ok(()); } _ => return Err(Stop::Invalid) }
+                }
+            }
+            b't' => self.lit(b"true"), b'f' => self.lit(b"false"), b'n' => self.lit(b"null"),
+            _ => self.number(),
+        }
+    }
+    /// after '{' and whitespace, up to and including '}'; `top` records the two fields
+    fn members(&mut self, top: &mut Option<(Field, Field)>) -> Result<(), Stop> {
+        if self.peek() == Some(b'}') { self.i += 1; return Ok(()); }
+        loop {
+            if self.fuel == 0 { return Err(Stop::Other); } self.fuel -= 1;
+            if self.peek().ok_or(Stop::Invalid)? != b'"' { return Err(Stop::Invalid); }
+            self.i += 1;
+            let (key, kesc) = self.string()?;
+            if top.is_some() && kesc { return Err(Stop::Other); }
+            self.ws();
+            if self.peek() != Some(b':') { return Err(Stop::Invalid); }
+            self.i += 1; self.ws();
+            let fv = if top.is_some() && self.peek() == Some(b'"') {
+                self.i += 1; let (raw, esc) = self.string()?; if esc { Field::Undecided } else { Field::Str(raw) }
+            } else {
+                // malformed inside a value that is not read: not decided by this reader
+                match self.value() { Ok(()) => {} Err(Stop::Invalid) if top.is_some() => return Err(Stop::Other), Err(x) => return Err(x) }
+                Field::Bad
+            };
+            if let Some((ty, ch)) = top.as_mut() {
+                if key == b"type" { *ty = if *ty == Field::None { fv.clone() } else { Field::Undecided }; }
+                if key == b"challenge" { *ch = if *ch == Field::None { fv.clone() } else { Field::Undecided }; }
+            }
+            self.ws();
+            match self.peek() {
+                Some(b',') => { self.i += 1; self.ws(); }
+                Some(b'}') => { self.i += 1; return Ok(()); }
+                // junk after a top-level value that is not a string: serde-json-core skips up to the next delimiter
+                _ if top.is_some() && fv == Field::Bad => return Err(Stop::Other),
+                _ => return Err(Stop::Invalid),
+            }
+        }
+    }
+}
+fn cd_fields(cd: &[u8]) -> Cd {
+    if !cd.iter().all(|c| *c < 128) { return Cd::Other; }
+    let mut p = Js { s: cd, i: 0, fuel: cd.len() + 1 };
+    p.ws();
+    if p.peek() != Some(b'{') { return Cd::Invalid; }
+    p.i += 1; p.ws();
+    let mut top = Some((Field::None, Field::None));
+    match p.members(&mut top) { Err(Stop::Invalid) => return Cd::Invalid, Err(Stop::Other) => return Cd::Other, Ok(()) => {} }
+    p.ws();
+    if p.i != cd.len() { return Cd::Invalid; }
+    match top.unwrap() {
+        (Field::None, _) | (Field::Bad, _) | (_, Field::None) | (_, Field::Bad) => Cd::Invalid,
+        (Field::Str(t), Field::Str(c)) => Cd::Plain(t, c),
+        _ => Cd::Other,
+    }
+}
+
+/// Independent strict decoder of the XDR form of WebAuthnSigData (same algorithm as
+/// coq/Model/SigDataXdrSpec.v): ScVal::Map(Some([Symbol -> Bytes; 3])) with the three field names in order.
+fn xdr_sigdata(x: &[u8]) -> Option<(Vec<u8>, Vec<u8>, Vec<u8>)> {
+    fn u32be(x: &[u8], i: &mut usize) -> Option<u32> { let b = x.get(*i..*i + 4)?; *i += 4; Some(u32::from_be_bytes([b[0], b[1], b[2], b[3]])) }
+    fn padded(x: &[u8], i: &mut usize, n: usize) -> Option<Vec<u8>> {
+        let pad = (4 - n % 4) % 4;
+        let b = x.get(*i..*i + n)?.to_vec();
+        let z = x.get(*i + n..*i + n + pad)?;
+        if z.iter().any(|c| *c != 0) { return None; }
+        *i += n + pad; Some(b)
+    }
+    fn entry(x: &[u8], i: &mut usize, name: &[u8]) -> Option<Vec<u8>> {
+        if u32be(x, i)? != 15 { return None; }
+        let n = u32be(x, i)? as usize;
+        if padded(x, i, n)? != name { return None; }
+        if u32be(x, i)? != 13 { return None; }
+        let m = u32be(x, i)? as usize;
+        padded(x, i, m)
+    }
+    let mut i = 0usize;
+    if u32be(x, &mut i)? != 17 || u32be(x, &mut i)? != 1 || u32be(x, &mut i)? != 3 { return None; }
+    let ad = entry(x, &mut i, b"authenticator_data")?;
+    let cd = entry(x, &mut i, b"client_data")?;
+    let sig = entry(x, &mut i, b"signature")?;
+    if i != x.len() || sig.len() != 64 { return None; }
+    Some((sig, ad, cd))
+}
+
+// ---------------------------------------------------------------------------------------------
 // Gallina printing with per-trace sharing of byte strings
 // ---------------------------------------------------------------------------------------------
 fn pack(v: &[u8]) -> String {
@@ -177,9 +328,9 @@ fn pack(v: &[u8]) -> String {
     }
     if ws.is_empty() { format!("(B 0 [])") } else { format!("(B {} [{}]%uint63)", v.len(), ws.join("; ")) }
 }
-struct Tr { names: HashMap<Vec<u8>, usize>, defs: Vec<String>, items: Vec<String> }
+struct Tr { names: HashMap<Vec<u8>, usize>, defs: Vec<String>, items: Vec<String>, kinds: std::collections::HashSet<String>, cred: Vec<u8> }
 impl Tr {
-    fn new() -> Tr { Tr { names: HashMap::new(), defs: vec![], items: vec![] } }
+    fn new() -> Tr { Tr { names: HashMap::new(), defs: vec![], items: vec![], kinds: Default::default(), cred: vec![] } }
     fn bs(&mut self, v: &[u8]) -> String {
         if v.len() <= 7 { return pack(v); }
         if let Some(i) = self.names.get(v) { return format!("(v {})", i); }
@@ -195,9 +346,10 @@ impl Tr {
     /// the trace term: a table of the byte strings used, looked up by index (`v i`)
     fn flush(&mut self, out: &mut Out, desc: &str) {
         if self.items.is_empty() { return; }
-        let s = format!("(let tbl := {} in let v := (fun i : Z => nth (Z.to_nat i) tbl []) in (({{| max_cd := {}; min_ad := {} |}}, {}) : trace))",
-                        if self.defs.is_empty() { "(@nil (list Z))".to_string() } else { list(&self.defs) },
-                        CLIENT_DATA_MAX_LEN, AUTHENTICATOR_DATA_MIN_LEN, list(&self.items));
+        // (fun v => trace) (table lookup): the body is elaborated without the big table in its context
+        let s = format!("((fun v : Z -> list Z => ((Build_cfg {} {}, {}) : trace)) (let tbl := {} in fun i : Z => nth (Z.to_nat i) tbl []))",
+                        CLIENT_DATA_MAX_LEN, AUTHENTICATOR_DATA_MIN_LEN, list(&self.items),
+                        if self.defs.is_empty() { "(@nil (list Z))".to_string() } else { list(&self.defs) });
         let n = self.items.len();
         out.trace(desc, s, n);
         *self = Tr::new();
@@ -210,7 +362,9 @@ fn ob(x: Option<bool>) -> String { opt(x.map(b)) }
 // assertions
 // ---------------------------------------------------------------------------------------------
 #[derive(Clone)]
-struct Asn { payload: Vec<u8>, key: Vec<u8>, sig: Vec<u8>, ad: Vec<u8>, cd: Vec<u8> }
+struct Asn { payload: Vec<u8>, key: Vec<u8>, sig: Vec<u8>, ad: Vec<u8>, cd: Vec<u8>,
+             /// the signature was produced over sha256(ad ++ sha256(cd)) with the secret key of `key` and nothing was changed since
+             signed: bool }
 
 struct Ctx<'a> {
     e: &'a Env,
@@ -300,14 +454,30 @@ fn make_ad(rng: &mut Rng, flags: u8, len: usize) -> Vec<u8> {
 }
 fn sign_asn(sk: &p256::ecdsa::SigningKey, pk: &[u8], payload: &[u8], ad: &[u8], cd: &[u8]) -> Asn {
     let sig = p256_sign(sk, &wa_message_digest(ad, cd));
-    Asn { payload: payload.to_vec(), key: pk.to_vec(), sig, ad: ad.to_vec(), cd: cd.to_vec() }
+    Asn { payload: payload.to_vec(), key: pk.to_vec(), sig, ad: ad.to_vec(), cd: cd.to_vec(), signed: true }
 }
 fn flags_rule(f: u8) -> bool { f & 1 != 0 && f & 4 != 0 && !(f & 8 == 0 && f & 16 != 0) }
 
+/// What the property text says about a freshly SIGNED assertion, from the independent client-data reader and the
+/// documented rules (1024 / 37, flag bits, "webauthn.get", challenge = base64url of the 32-byte payload).
+/// None = the text does not decide (reader undecided, or payload longer than 32 bytes that would pass on its prefix).
+fn spec_expect(a: &Asn, pre: bool) -> Option<bool> {
+    if !a.signed { return None; }
+    let (ty, ch) = match cd_fields(&a.cd) { Cd::Plain(t, c) => (t, c), Cd::Invalid => return Some(false), Cd::Other => return None };
+    let rest = pre && a.cd.len() <= 1024 && ty == b"webauthn.get" && a.ad.len() >= 37 && flags_rule(a.ad[32]);
+    if a.payload.len() == 32 { return Some(rest && ch == b64url(&a.payload)); }
+    if !(rest && a.payload.len() > 32 && ch == b64url(&a.payload[..32])) { Some(false) } else { None }
+}
 fn asn_term(tr: &mut Tr, a: &Asn, expect: Option<bool>) -> String {
+    if std::env::var("C18_JSONDBG").is_ok() {
+        let r = cd_fields(&a.cd); let o = json_oracle(&a.cd);
+        let agree = match (&r, &o) { (Cd::Plain(t, c), Some((t2, c2))) => t == t2 && c == c2, (Cd::Invalid, None) => true, (Cd::Other, _) => true, _ => false };
+        eprintln!("JSONDBG agree={} reader={:?} serde={:?} cd={:?}", agree, match &r { Cd::Plain(..) => "plain", Cd::Invalid => "invalid", Cd::Other => "other" }, o.is_some(), String::from_utf8_lossy(&a.cd[..a.cd.len().min(160)]));
+    }
     let parsed = json_oracle(&a.cd).map(|(t, c)| pair(&tr.bs(&t), &tr.bs(&c)));
     let sigok = a.sig.len() == 64 && p256_oracle(&a.key, &wa_message_digest(&a.ad, &a.cd), &a.sig);
-    format!("{{| a_payload := {}; a_key := {}; a_sig := {}; a_ad := {}; a_cd := {}; a_parsed := {}; a_sigok := {}; a_expect := {} |}}",
+    // Build_assertion payload key sig ad cd parsed sigok expect (the record notation elaborates slowly)
+    format!("(Build_assertion {} {} {} {} {} {} {} {})",
             tr.bs(&a.payload), tr.bs(&a.key), tr.bs(&a.sig), tr.bs(&a.ad), tr.bs(&a.cd), opt(parsed), b(sigok), ob(expect))
 }
 fn res_bool<E, F>(r: Result<Result<bool, E>, F>) -> (String, &'static str) {
@@ -317,6 +487,7 @@ fn res_bool<E, F>(r: Result<Result<bool, E>, F>) -> (String, &'static str) {
 /// webauthn::verify through the library wrapper
 fn wa_lib(cx: &Ctx, tr: &mut Tr, out: &mut Out, kind: &str, a: &Asn, expect: Option<bool>) {
     let e = cx.e;
+    let expect = expect.or_else(|| spec_expect(a, true));
     let key: [u8; 65] = a.key.clone().try_into().expect("65-byte key");
     let sig: [u8; 64] = a.sig.clone().try_into().expect("64-byte sig");
     let sd = WebAuthnSigData { signature: BytesN::from_array(e, &sig), authenticator_data: Bytes::from_slice(e, &a.ad), client_data: Bytes::from_slice(e, &a.cd) };
@@ -324,35 +495,46 @@ fn wa_lib(cx: &Ctx, tr: &mut Tr, out: &mut Out, kind: &str, a: &Asn, expect: Opt
     let call = format!("WaLib {}", asn_term(tr, a, expect));
     tr.push(out, &format!("wa-lib/{}/{}", kind, tag), call, res);
 }
-/// the example contract: key_data = key ++ credential id, sig_data = XDR bytes
-fn wa_ex_raw(cx: &Ctx, tr: &mut Tr, out: &mut Out, kind: &str, payload: &[u8], key_data: &[u8], sig_data: &Bytes, expect: Option<bool>) {
+/// the example contract: key_data = key ++ credential id, sig_data = XDR bytes.  `signed`: the signature inside
+/// sig_data is a genuine one for the first 65 bytes of key_data over the authenticator / client data inside.
+fn wa_ex_raw(cx: &Ctx, tr: &mut Tr, out: &mut Out, kind: &str, payload: &[u8], key_data: &[u8], sig_data: &Bytes, expect: Option<bool>, signed: bool) {
     let e = cx.e;
+    let sdv = bv(sig_data);
+    // the decoding oracle handed to the model: the SDK's from_xdr (run in a helper contract)
     let dec: Option<WebAuthnSigData> = cx.lib.try_decode(sig_data).ok().and_then(|r| r.ok());
     let key = if key_data.len() >= 65 { key_data[..65].to_vec() } else { key_data.to_vec() };
     let a = match &dec {
-        Some(s) => Asn { payload: payload.to_vec(), key, sig: s.signature.to_array().to_vec(), ad: bv(&s.authenticator_data), cd: bv(&s.client_data) },
-        None => Asn { payload: payload.to_vec(), key, sig: vec![], ad: vec![], cd: vec![] },
+        Some(s) => Asn { payload: payload.to_vec(), key: key.clone(), sig: s.signature.to_array().to_vec(), ad: bv(&s.authenticator_data), cd: bv(&s.client_data), signed },
+        None => Asn { payload: payload.to_vec(), key: key.clone(), sig: vec![], ad: vec![], cd: vec![], signed: false },
     };
+    // the expectation comes from the INDEPENDENT decoder (the monitor re-decodes the printed bytes as well)
+    let own = xdr_sigdata(&sdv);
+    if own.is_some() != dec.is_some() { out.label("oracle/xdr-decoders-disagree"); }
+    let expect = expect.or_else(|| match &own {
+        None => Some(false),
+        Some((sig, ad, cd)) => spec_expect(&Asn { payload: payload.to_vec(), key: key.clone(), sig: sig.clone(), ad: ad.clone(), cd: cd.clone(), signed }, key_data.len() >= 65),
+    });
     let (res, tag) = res_bool(cx.wa.try_verify(&Bytes::from_slice(e, payload), &Bytes::from_slice(e, key_data), sig_data));
-    let call = format!("WaEx {} {} {}", tr.bs(key_data), b(dec.is_some()), asn_term(tr, &a, expect));
+    let call = format!("WaEx {} {} {} {}", tr.bs(key_data), tr.bs(&sdv), b(dec.is_some()), asn_term(tr, &a, expect));
     tr.push(out, &format!("wa-ex/{}/{}", kind, tag), call, res);
 }
-fn wa_ex(cx: &Ctx, tr: &mut Tr, out: &mut Out, rng: &mut Rng, kind: &str, a: &Asn, expect: Option<bool>) {
+fn wa_ex(cx: &Ctx, tr: &mut Tr, out: &mut Out, kind: &str, a: &Asn, expect: Option<bool>) {
     let e = cx.e;
     let sig: [u8; 64] = a.sig.clone().try_into().expect("64-byte sig");
     let sd = WebAuthnSigData { signature: BytesN::from_array(e, &sig), authenticator_data: Bytes::from_slice(e, &a.ad), client_data: Bytes::from_slice(e, &a.cd) };
-    let mut kd = a.key.clone();
-    let idlen = *rng.pick(&[0usize, 0, 1, 16, 32, 40]);
-    kd.extend_from_slice(&rbytes(rng, idlen));
-    wa_ex_raw(cx, tr, out, kind, &a.payload, &kd, &sd.to_xdr(e), expect);
+    // the same credential id for the whole trace: key_data of a corrupted assertion equals that of the genuine one
+    let kd = [&a.key[..], &tr.cred.clone()[..]].concat();
+    wa_ex_raw(cx, tr, out, kind, &a.payload, &kd, &sd.to_xdr(e), expect, a.signed);
 }
-/// one assertion through one of the two entry points (both when `both`)
+/// one assertion: through BOTH entry points the first time a kind occurs in a trace (so that every
+/// wa-lib/... and wa-ex/... label is hit deterministically) or when `both`; afterwards through one of them
 fn wa_any(cx: &Ctx, tr: &mut Tr, out: &mut Out, rng: &mut Rng, kind: &str, a: &Asn, expect: Option<bool>, both: bool) {
     let lib_ok = a.key.len() == 65 && a.sig.len() == 64;
-    if both || !lib_ok {
+    let first = tr.kinds.insert(kind.to_string());
+    if both || first || !lib_ok {
         if lib_ok { wa_lib(cx, tr, out, kind, a, expect); }
-        wa_ex(cx, tr, out, rng, kind, a, expect);
-    } else if rng.chance(3, 5) { wa_lib(cx, tr, out, kind, a, expect); } else { wa_ex(cx, tr, out, rng, kind, a, expect); }
+        wa_ex(cx, tr, out, kind, a, expect);
+    } else if rng.chance(1, 2) { wa_lib(cx, tr, out, kind, a, expect); } else { wa_ex(cx, tr, out, kind, a, expect); }
 }
 
 fn ed_call(cx: &Ctx, tr: &mut Tr, out: &mut Out, via_ex: bool, kind: &str, payload: &[u8], key: &[u8], sig: &[u8], expect: Option<bool>) {
@@ -391,7 +573,14 @@ fn wa_trace(cx: &Ctx, out: &mut Out, rng: &mut Rng, thorough: bool, idx: usize) 
     let tr = &mut tr;
     let (sk, pk) = p256_key(rng);
     let (sk2, pk2) = p256_key(rng);
-    let payload = rbytes(rng, 32);
+    tr.cred = { let n = [0usize, 1, 16, 32, 40, 0][idx % 6]; rbytes(rng, n) };
+    // the payload: random, or (every third trace) made of boundary bytes (all zero / all ones / the bytes that
+    // produce the characters '-' and '_' / alternating)
+    let payload: Vec<u8> = match idx % 9 {
+        2 => vec![0u8; 32], 5 => vec![0xFFu8; 32],
+        8 => (0..32).map(|i| [0xFBu8, 0xEF, 0xBE, 0xFF, 0x00, 0x3E, 0x3F][(i + idx / 9) % 7]).collect(),
+        _ => rbytes(rng, 32),
+    };
     let ch = String::from_utf8(b64url(&payload)).unwrap();
     let style = rng.below(6);
     let flags = valid_flags(rng);
@@ -402,25 +591,40 @@ fn wa_trace(cx: &Ctx, out: &mut Out, rng: &mut Rng, thorough: bool, idx: usize) 
     let cd = make_cd(style, "webauthn.get", &ch, *rng.pick(&[0usize, 0, 5, 40]));
     let g = sign_asn(&sk, &pk, &payload, &ad, &cd);
     wa_any(cx, tr, out, rng, "genuine", &g, Some(true), true);
+    // genuine assertions for boundary-byte payloads (in every trace, both entry points)
+    for bp in [vec![0u8; 32], vec![0xFFu8; 32], (0..32u8).map(|i| if i % 2 == 0 { 0xFB } else { 0xFF }).collect::<Vec<u8>>(), (0..32u8).map(|i| 0x80 >> (i % 8)).collect::<Vec<u8>>()] {
+        let c = make_cd(style, "webauthn.get", &String::from_utf8(b64url(&bp)).unwrap(), 0);
+        let a = sign_asn(&sk, &pk, &bp, &ad, &c);
+        wa_any(cx, tr, out, rng, "genuine-boundary-payload", &a, Some(true), true);
+        let mut a2 = a.clone(); a2.payload[31] ^= 1;
+        wa_any(cx, tr, out, rng, "boundary-payload-bit", &a2, Some(false), true);
+    }
 
     // ---- corruptions of a genuine assertion, signature NOT redone: all must be rejected ----
     let no = Some(false);
-    for _ in 0..2 { let mut a = g.clone(); a.payload = flip(rng, &g.payload); wa_any(cx, tr, out, rng, "payload-bit", &a, no, false); }
+    // single-bit corruptions of payload / key / signature / authenticator data, each through BOTH entry points.
+    // quick: 5 bits of each field per trace; thorough: additionally every bit of the payload (traces 1 mod 8),
+    // every 4th bit of key and signature (2 mod 8), every 4th bit of the authenticator data (3 mod 8)
+    let bit = |v: &[u8], k: usize| { let mut w = v.to_vec(); w[k / 8] ^= 1 << (k % 8); w };
+    let pick_bits = |rng: &mut Rng, nbits: usize, all: bool, stride: usize| -> Vec<usize> {
+        if all { (0..nbits).step_by(stride).collect() } else { let mut v = vec![0, nbits - 1]; for _ in 0..3 { v.push(rng.below(nbits as u64) as usize); } v }
+    };
+    for k in pick_bits(rng, 256, thorough && idx % 8 == 1, 1) { let mut a = g.clone(); a.payload = bit(&g.payload, k); wa_any(cx, tr, out, rng, "payload-bit", &a, no, true); }
+    for k in pick_bits(rng, 520, thorough && idx % 8 == 2, 4) { let mut a = g.clone(); a.key = bit(&g.key, k); wa_any(cx, tr, out, rng, "key-bit", &a, no, true); }
+    for k in pick_bits(rng, 512, thorough && idx % 8 == 2, 4) { let mut a = g.clone(); a.sig = bit(&g.sig, k); wa_any(cx, tr, out, rng, "sig-bit", &a, no, true); }
+    for k in pick_bits(rng, g.ad.len() * 8, thorough && idx % 8 == 3, 4) { let mut a = g.clone(); a.ad = bit(&g.ad, k); wa_any(cx, tr, out, rng, "ad-bit", &a, no, true); }
     { let mut a = g.clone(); a.payload = rbytes(rng, 32); wa_any(cx, tr, out, rng, "payload-other", &a, no, false); }
-    for _ in 0..2 { let mut a = g.clone(); a.key = flip(rng, &g.key); wa_any(cx, tr, out, rng, "key-bit", &a, no, false); }
     { let mut a = g.clone(); a.key = pk2.clone(); wa_any(cx, tr, out, rng, "key-other", &a, no, false); }
     { let mut a = g.clone(); a.key[0] = *rng.pick(&[0x02u8, 0x03, 0x00]); wa_any(cx, tr, out, rng, "key-tag", &a, no, false); }
-    for _ in 0..2 { let mut a = g.clone(); a.sig = flip(rng, &g.sig); wa_any(cx, tr, out, rng, "sig-bit", &a, no, false); }
     { let mut a = g.clone(); a.sig = high_s(&g.sig); wa_any(cx, tr, out, rng, "sig-high-s", &a, no, false); }
     { let mut a = g.clone(); a.sig = vec![0u8; 64]; wa_any(cx, tr, out, rng, "sig-zero", &a, no, false); }
     { let mut a = g.clone(); a.sig = [&g.sig[32..], &g.sig[..32]].concat(); wa_any(cx, tr, out, rng, "sig-swap", &a, no, false); }
     { let mut a = g.clone(); a.sig = p256_sign(&sk2, &wa_message_digest(&ad, &cd)); wa_any(cx, tr, out, rng, "sig-other-key", &a, no, false); }
-    for _ in 0..2 { let mut a = g.clone(); a.ad = flip(rng, &g.ad); wa_any(cx, tr, out, rng, "ad-bit", &a, no, false); }
     let fbits: Vec<u8> = if thorough { (0..8).collect() } else { vec![rng.below(8) as u8, rng.below(8) as u8] };
-    for k in fbits { let mut a = g.clone(); a.ad[32] ^= 1 << k; wa_any(cx, tr, out, rng, "ad-flag-bit", &a, no, false); }
+    for k in fbits { let mut a = g.clone(); a.ad[32] ^= 1 << k; wa_any(cx, tr, out, rng, "ad-flag-bit", &a, no, true); }
     { let mut a = g.clone(); a.ad.push(rng.next_u64() as u8); wa_any(cx, tr, out, rng, "ad-append", &a, no, false); }
     { let mut a = g.clone(); a.ad.pop(); wa_any(cx, tr, out, rng, "ad-truncate", &a, no, false); }
-    for _ in 0..3 { let mut a = g.clone(); a.cd = flip(rng, &g.cd); wa_any(cx, tr, out, rng, "cd-bit", &a, no, false); }
+    for _ in 0..4 { let mut a = g.clone(); a.cd = flip(rng, &g.cd); wa_any(cx, tr, out, rng, "cd-bit", &a, no, true); }
     if let Some(p) = find(&g.cd, ch.as_bytes()) { let mut a = g.clone(); a.cd = flip_in(rng, &g.cd, p, p + 43); wa_any(cx, tr, out, rng, "cd-bit-challenge", &a, no, false); }
     if let Some(p) = find(&g.cd, b"webauthn.get") { let mut a = g.clone(); a.cd = flip_in(rng, &g.cd, p, p + 12); wa_any(cx, tr, out, rng, "cd-bit-type", &a, no, false); }
     { let mut a = g.clone(); a.cd.push(b' '); wa_any(cx, tr, out, rng, "cd-append-space", &a, no, false); }
@@ -452,7 +656,9 @@ fn wa_trace(cx: &Ctx, out: &mut Out, rng: &mut Rng, thorough: bool, idx: usize) 
         wa_any(cx, tr, out, rng, if flags_rule(f) { "flags-valid" } else { "flags-invalid" }, &a, Some(flags_rule(f)), false);
     }
     for (ty, ex) in [("webauthn.create", no), ("webauthn.get ", no), (" webauthn.get", no), ("Webauthn.get", no), ("webauthn.ge", no), ("webauthn.gett", no), ("", no),
-                     ("webauthn.get\\u0000", no), ("webauthn.g\\u0065t", None), ("webauthn\\u002eget", None)] {
+                     ("webauthn.get\\u0000", no), ("webauthn.get\u{e9}", no), ("webauthn.g\u{e9}t", no),
+                     // escaped spellings of the same string: the text does not say whether the comparison is on the raw or the unescaped string
+                     ("webauthn.g\\u0065t", None), ("webauthn\\u002eget", None)] {
         let a = sign_asn(&sk, &pk, &payload, &ad, &make_cd(style, ty, &ch, 0));
         wa_any(cx, tr, out, rng, "type-changed", &a, ex, false);
     }
@@ -483,63 +689,87 @@ fn wa_trace(cx: &Ctx, out: &mut Out, rng: &mut Rng, thorough: bool, idx: usize) 
         let a = sign_asn(&sk, &pk, &p, &ad, &make_cd(style, "webauthn.get", &String::from_utf8(b64url(&p)).unwrap(), 0));
         wa_any(cx, tr, out, rng, "payload-long-full", &a, no, false);
     }
-    // client data length around the bound
-    for total in [max_cd - 1, max_cd, max_cd + 1, max_cd + 476] {
+    // client data length: the documented bound 1024 (and the code's constant, should it differ), and lengths in between
+    let mut totals: Vec<usize> = vec![1023, 1024, 1025, 1500];
+    for t in [max_cd - 1, max_cd, max_cd + 1] { if !totals.contains(&t) { totals.push(t); } }
+    for total in totals {
         let c = make_cd_len(style, "webauthn.get", &ch, total);
         let a = sign_asn(&sk, &pk, &payload, &ad, &c);
-        let k = if total < max_cd { "cd-len-below" } else if total == max_cd { "cd-len-at" } else { "cd-len-above" };
-        wa_any(cx, tr, out, rng, k, &a, Some(c.len() <= max_cd), total == max_cd || total == max_cd + 1);
+        let k = if total < 1024 { "cd-len-below" } else if total == 1024 { "cd-len-at" } else { "cd-len-above" };
+        wa_any(cx, tr, out, rng, k, &a, Some(c.len() <= 1024), true);
     }
-    // authenticator data length around the bound
-    for n in [0usize, 32, 33, min_ad - 1, min_ad, min_ad + 1] {
+    for total in [300usize, 512, 777, 1000, 260 + rng.below(760) as usize, 260 + rng.below(760) as usize] {
+        let c = make_cd_len(style, "webauthn.get", &ch, total);
+        let a = sign_asn(&sk, &pk, &payload, &ad, &c);
+        wa_any(cx, tr, out, rng, "cd-len-mid", &a, Some(true), false);
+    }
+    // authenticator data length: the documented minimum 37 (and the code's constant, should it differ)
+    let mut lens: Vec<usize> = vec![0, 32, 33, 36, 37, 38];
+    for t in [min_ad - 1, min_ad, min_ad + 1] { if !lens.contains(&t) { lens.push(t); } }
+    for n in lens {
         let ad2 = make_ad(rng, flags, n);
         let a = sign_asn(&sk, &pk, &payload, &ad2, &cd);
-        let k = if n < min_ad { "ad-len-below" } else { "ad-len-ok" };
-        wa_any(cx, tr, out, rng, k, &a, Some(n >= min_ad && n > 32), n + 1 == min_ad || n == min_ad);
+        let k = if n < 37 { "ad-len-below" } else { "ad-len-ok" };
+        wa_any(cx, tr, out, rng, k, &a, Some(n >= 37), true);
     }
-    // JSON shapes (the parser is an oracle; expectation only where it is beyond doubt)
-    let jsons: Vec<(String, Option<bool>)> = vec![
-        (format!(r#"{{"challenge":"{ch}","origin":"o"}}"#), no),
-        (format!(r#"{{"type":"webauthn.get","origin":"o"}}"#), no),
-        (format!(r#"{{"type":5,"challenge":"{ch}"}}"#), no),
-        (format!(r#"["webauthn.get","{ch}"]"#), no),
-        (String::new(), no),
-        (format!(r#"{{"type":"webauthn.get","challenge":"{ch}"}}x"#), None),
-        (format!(r#"{{"type":"webauthn.get","challenge":"{ch}"}}   "#), None),
-        (format!(r#"{{"type":"webauthn.get","type":"webauthn.get","challenge":"{ch}"}}"#), None),
-        (format!(r#"{{"type":"webauthn.create","type":"webauthn.get","challenge":"{ch}"}}"#), None),
-        (format!(r#"{{"x":{{"type":"webauthn.get","challenge":"{ch}"}}}}"#), no),
-        (format!(r#"{{"x":{{"type":"webauthn.create","challenge":"AAAA"}},"type":"webauthn.get","challenge":"{ch}"}}"#), None),
-        (format!(r#"{{"type":"webauthn.get","challenge":"{ch}","origin":"https://ex\"ample.com"}}"#), None),
-        (format!("\u{feff}{{\"type\":\"webauthn.get\",\"challenge\":\"{ch}\"}}"), None),
-        (format!(r#"{{"type":"webauthn.get","challenge":"{ch}""#), no),
+    // JSON shapes: the expectation `None` is replaced by what the independent reader and the text say (spec_expect);
+    // an explicit one is what the generator knows by construction
+    let jsons: Vec<(&str, String, Option<bool>)> = vec![
+        ("json-missing-field", format!(r#"{{"challenge":"{ch}","origin":"o"}}"#), no),
+        ("json-missing-field", format!(r#"{{"type":"webauthn.get","origin":"o"}}"#), no),
+        ("json-key-variant", format!(r#"{{"Type":"webauthn.get","challenge":"{ch}"}}"#), no),
+        ("json-key-variant", format!(r#"{{"type ":"webauthn.get","challenge":"{ch}"}}"#), no),
+        ("json-key-variant", format!(r#"{{"type":"webauthn.get","Challenge":"{ch}"}}"#), no),
+        ("json-key-variant", format!(r#"{{"type_field":"webauthn.get","challenge":"{ch}"}}"#), no),
+        ("json-nonstring-type", format!(r#"{{"type":5,"challenge":"{ch}"}}"#), no),
+        ("json-nonstring-type", format!(r#"{{"type":"webauthn.get","challenge":["{ch}"]}}"#), no),
+        ("json-not-object", format!(r#"["webauthn.get","{ch}"]"#), no),
+        ("json-not-object", String::new(), no),
+        ("json-trailing-garbage", format!(r#"{{"type":"webauthn.get","challenge":"{ch}"}}x"#), no),
+        ("json-trailing-garbage", format!(r#"{{"type":"webauthn.get","challenge":"{ch}"}}}}"#), no),
+        ("json-trailing-ws", format!("{{\"type\":\"webauthn.get\",\"challenge\":\"{ch}\"}} \n\t "), Some(true)),
+        ("json-leading-ws", format!(" \r\n{{ \"type\" : \"webauthn.get\" , \"challenge\" : \"{ch}\" }}"), Some(true)),
+        ("json-dup-key", format!(r#"{{"type":"webauthn.get","type":"webauthn.get","challenge":"{ch}"}}"#), None),
+        ("json-dup-key", format!(r#"{{"type":"webauthn.create","type":"webauthn.get","challenge":"{ch}"}}"#), None),
+        ("json-nested-only", format!(r#"{{"x":{{"type":"webauthn.get","challenge":"{ch}"}}}}"#), no),
+        ("json-nested-decoy", format!(r#"{{"x":{{"type":"webauthn.create","challenge":"AAAA"}},"type":"webauthn.get","challenge":"{ch}"}}"#), Some(true)),
+        ("json-nested-decoy", format!(r#"{{"x":[{{"type":"webauthn.get","challenge":"{ch}"}}],"type":"webauthn.create","challenge":"{ch}"}}"#), no),
+        ("json-escaped-quote", format!(r#"{{"type":"webauthn.get","challenge":"{ch}","origin":"https://ex\"ample.com"}}"#), Some(true)),
+        ("json-escaped-quote", format!(r#"{{"origin":"\",\"type\":\"webauthn.get","type":"webauthn.create","challenge":"{ch}"}}"#), no),
+        ("json-bom", format!("\u{feff}{{\"type\":\"webauthn.get\",\"challenge\":\"{ch}\"}}"), None),
+        ("json-unterminated", format!(r#"{{"type":"webauthn.get","challenge":"{ch}""#), no),
+        ("json-unterminated", format!(r#"{{"type":"webauthn.get","challenge":"{ch}"#), no),
+        // malformed inside a member that is not read: serde-json-core skips it leniently; not decided by the text's clauses
+        ("json-malformed-ignored", format!(r#"{{"type":"webauthn.get","challenge":"{ch}","crossOrigin":fal{{e}}"#), None),
+        ("json-malformed-ignored", format!(r#"{{"type":"webauthn.get","challenge":"{ch}","n":[1,,2]}}"#), None),
     ];
-    for (j, ex) in jsons {
+    for (k, j, ex) in jsons {
         let a = sign_asn(&sk, &pk, &payload, &ad, j.as_bytes());
-        wa_any(cx, tr, out, rng, "json-shape", &a, ex, false);
+        wa_any(cx, tr, out, rng, k, &a, ex, false);
     }
     { // a non-UTF-8 byte inside the origin string
         let mut c = cd.clone(); if let Some(p) = find(&c, b"example") { c[p] = 0xFF; }
         let a = sign_asn(&sk, &pk, &payload, &ad, &c);
-        wa_any(cx, tr, out, rng, "json-shape", &a, None, false);
+        wa_any(cx, tr, out, rng, "json-non-utf8", &a, None, false);
     }
     // the example contract's own decoding steps
     let sig64: [u8; 64] = g.sig.clone().try_into().unwrap();
     let (adb, cdb) = (Bytes::from_slice(e, &ad), Bytes::from_slice(e, &cd));
     let good = WebAuthnSigData { signature: BytesN::from_array(e, &sig64), authenticator_data: adb.clone(), client_data: cdb.clone() }.to_xdr(e);
-    wa_ex_raw(cx, tr, out, "key-data-exact", &payload, &pk, &good, Some(true));
-    wa_ex_raw(cx, tr, out, "key-data-short", &payload, &pk[..64], &good, no);
-    wa_ex_raw(cx, tr, out, "key-data-short", &payload, &[], &good, no);
-    wa_ex_raw(cx, tr, out, "key-data-shifted", &payload, &[&[0u8][..], &pk[..]].concat(), &good, no);
-    wa_ex_raw(cx, tr, out, "xdr-nosig", &payload, &pk, &shapes::NoSig { authenticator_data: adb.clone(), client_data: cdb.clone() }.to_xdr(e), no);
-    wa_ex_raw(cx, tr, out, "xdr-sig63", &payload, &pk, &shapes::SigBytes { authenticator_data: adb.clone(), client_data: cdb.clone(), signature: Bytes::from_slice(e, &g.sig[..63]) }.to_xdr(e), no);
-    wa_ex_raw(cx, tr, out, "xdr-sig-as-bytes", &payload, &pk, &shapes::SigBytes { authenticator_data: adb.clone(), client_data: cdb.clone(), signature: Bytes::from_slice(e, &g.sig) }.to_xdr(e), None);
-    wa_ex_raw(cx, tr, out, "xdr-extra-field", &payload, &pk, &shapes::Extra { authenticator_data: adb.clone(), client_data: cdb.clone(), extra: 7, signature: BytesN::from_array(e, &sig64) }.to_xdr(e), None);
-    wa_ex_raw(cx, tr, out, "xdr-garbage", &payload, &pk, &Bytes::from_slice(e, &rbytes(rng, 40)), no);
-    wa_ex_raw(cx, tr, out, "xdr-empty", &payload, &pk, &Bytes::new(e), no);
-    { let v = bv(&good); wa_ex_raw(cx, tr, out, "xdr-truncated", &payload, &pk, &Bytes::from_slice(e, &v[..v.len() - 4]), no); }
-    { let mut v = bv(&good); v.extend_from_slice(&[0, 0, 0, 0]); wa_ex_raw(cx, tr, out, "xdr-trailing", &payload, &pk, &Bytes::from_slice(e, &v), None); }
-    // statelessness: the same genuine assertion is accepted again after all of the above
+    wa_ex_raw(cx, tr, out, "key-data-exact", &payload, &pk, &good, Some(true), true);
+    wa_ex_raw(cx, tr, out, "key-data-short", &payload, &pk[..64], &good, no, true);
+    wa_ex_raw(cx, tr, out, "key-data-short", &payload, &[], &good, no, true);
+    wa_ex_raw(cx, tr, out, "key-data-shifted", &payload, &[&[0u8][..], &pk[..]].concat(), &good, no, true);
+    wa_ex_raw(cx, tr, out, "xdr-nosig", &payload, &pk, &shapes::NoSig { authenticator_data: adb.clone(), client_data: cdb.clone() }.to_xdr(e), no, true);
+    wa_ex_raw(cx, tr, out, "xdr-sig63", &payload, &pk, &shapes::SigBytes { authenticator_data: adb.clone(), client_data: cdb.clone(), signature: Bytes::from_slice(e, &g.sig[..63]) }.to_xdr(e), no, true);
+    wa_ex_raw(cx, tr, out, "xdr-sig-as-bytes", &payload, &pk, &shapes::SigBytes { authenticator_data: adb.clone(), client_data: cdb.clone(), signature: Bytes::from_slice(e, &g.sig) }.to_xdr(e), None, true);
+    wa_ex_raw(cx, tr, out, "xdr-extra-field", &payload, &pk, &shapes::Extra { authenticator_data: adb.clone(), client_data: cdb.clone(), extra: 7, signature: BytesN::from_array(e, &sig64) }.to_xdr(e), None, true);
+    wa_ex_raw(cx, tr, out, "xdr-garbage", &payload, &pk, &Bytes::from_slice(e, &rbytes(rng, 40)), no, true);
+    wa_ex_raw(cx, tr, out, "xdr-empty", &payload, &pk, &Bytes::new(e), no, true);
+    { let v = bv(&good); wa_ex_raw(cx, tr, out, "xdr-truncated", &payload, &pk, &Bytes::from_slice(e, &v[..v.len() - 4]), no, true); }
+    { let mut v = bv(&good); v.extend_from_slice(&[0, 0, 0, 0]); wa_ex_raw(cx, tr, out, "xdr-trailing", &payload, &pk, &Bytes::from_slice(e, &v), None, true); }
+    // statelessness: the same genuine assertion is accepted again after all of the above and after a long ledger gap
+    e.ledger().with_mut(|l| l.sequence_number += [20u32, 100, 17281, 20000, 600000, 4000000][idx % 6]);
     wa_any(cx, tr, out, rng, "genuine-again", &g, Some(true), true);
     tr.flush(out, "webauthn: genuine assertion, corruptions, re-signed variants");
 }
@@ -558,14 +788,16 @@ fn ed_trace(cx: &Ctx, out: &mut Out, rng: &mut Rng, n: usize) {
         let no = Some(false);
         ed_call(cx, tr, out, false, "genuine", &p, &pk, &sig, Some(true));
         ed_call(cx, tr, out, true, "genuine", &p, &pk, &sig, Some(true));
-        let via = |rng: &mut Rng| rng.chance(1, 2);
-        if plen > 0 { for _ in 0..2 { let v = via(rng); ed_call(cx, tr, out, v, "payload-bit", &flip(rng, &p), &pk, &sig, no); } }
+        // entry point: alternates deterministically (every kind meets both parities of i within a trace)
+        let cnt = std::cell::Cell::new(0usize);
+        let via = |_rng: &mut Rng| { cnt.set(cnt.get() + 1); (cnt.get() + i) % 2 == 0 };
+        if plen > 0 { for j in 0..4 { ed_call(cx, tr, out, j % 2 == 0, "payload-bit", &flip(rng, &p), &pk, &sig, no); } }
         { let v = via(rng); ed_call(cx, tr, out, v, "payload-append", &[&p[..], &[0u8][..]].concat(), &pk, &sig, no); }
         if plen > 0 { let v = via(rng); ed_call(cx, tr, out, v, "payload-truncate", &p[..plen - 1], &pk, &sig, no); }
         if plen > 32 { let v = via(rng); ed_call(cx, tr, out, v, "payload-prefix32", &p[..32], &pk, &sig, no); }
-        for _ in 0..2 { let v = via(rng); ed_call(cx, tr, out, v, "key-bit", &p, &flip(rng, &pk), &sig, no); }
+        for j in 0..4 { ed_call(cx, tr, out, j % 2 == 0, "key-bit", &p, &flip(rng, &pk), &sig, no); }
         { let v = via(rng); ed_call(cx, tr, out, v, "key-other", &p, &sk2.verifying_key().to_bytes(), &sig, no); }
-        for _ in 0..2 { let v = via(rng); ed_call(cx, tr, out, v, "sig-bit", &p, &pk, &flip(rng, &sig), no); }
+        for j in 0..4 { ed_call(cx, tr, out, j % 2 == 0, "sig-bit", &p, &pk, &flip(rng, &sig), no); }
         { let v = via(rng); ed_call(cx, tr, out, v, "sig-other-key", &p, &pk, &sk2.sign(&p).to_bytes(), no); }
         { let v = via(rng); ed_call(cx, tr, out, v, "sig-other-payload", &p, &pk, &sk.sign(&rbytes(rng, 32)).to_bytes(), no); }
         { let v = via(rng); ed_call(cx, tr, out, v, "sig-noncanonical-s", &p, &pk, &ed_noncanonical(&sig), no); }
@@ -573,8 +805,12 @@ fn ed_trace(cx: &Ctx, out: &mut Out, rng: &mut Rng, n: usize) {
         { let v = via(rng); ed_call(cx, tr, out, v, "sig-swap", &p, &pk, &[&sig[32..], &sig[..32]].concat(), no); }
         // small-order / degenerate keys: the oracle decides
         let mut ident = [0u8; 32]; ident[0] = 1;
-        { let v = via(rng); ed_call(cx, tr, out, v, "key-small-order", &p, &ident, &sig, None); }
-        { let v = via(rng); ed_call(cx, tr, out, v, "key-small-order", &p, &[0u8; 32], &[0u8; 64], None); }
+        // the identity as key with a signature made for another key: not a valid signature under any verification equation
+        ed_call(cx, tr, out, false, "key-identity", &p, &ident, &sig, no);
+        ed_call(cx, tr, out, true, "key-identity", &p, &ident, &sig, no);
+        // order-4 key, R = that point, S = 0: valid under RFC 8032's cofactored equation for every message, rejected by
+        // strict verification - the text ("a valid signature") does not decide
+        { let v = via(rng); ed_call(cx, tr, out, v, "key-small-order-cofactored", &p, &[0u8; 32], &[0u8; 64], None); }
         ed_call(cx, tr, out, via(rng), "genuine-again", &p, &pk, &sig, Some(true));
     }
     tr.flush(out, "ed25519: genuine signatures and corruptions");
@@ -670,7 +906,14 @@ fn small_calls(cx: &Ctx, out: &mut Out, rng: &mut Rng, thorough: bool) {
         tr.push(out, &format!("flags/{}", if okk { "ok" } else { "fail" }), format!("Flags {}", f), if okk { "(Ok OUnit)".into() } else { "Fail".into() });
     }
     tr.flush(out, "flag validators: all 256 flag bytes");
-    for ty in ["webauthn.get", "webauthn.create", "", "webauthn.ge", "webauthn.gett", "WEBAUTHN.GET", "webauthn.get\u{0}", "webauthn,get", "xebauthn.get", "webauthn.geu", "w", "webauthn.get.get"] {
+    for w in 0..3u32 {
+        for f in 0..=255u32 {
+            let okk = matches!(cx.lib.try_flag_one(&w, &f), Ok(Ok(())));
+            tr.push(out, &format!("flag-{}/{}", ["up", "uv", "backup"][w as usize], if okk { "ok" } else { "fail" }), format!("FlagOne {} {}", w, f), if okk { "(Ok OUnit)".into() } else { "Fail".into() });
+        }
+        tr.flush(out, "single flag validators: all 256 flag bytes");
+    }
+    for ty in ["webauthn.get", "webauthn.create", "", "webauthn.ge", "webauthn.gett", "WEBAUTHN.GET", "webauthn.get\u{0}", "webauthn.get\u{e9}", "webauthn.g\u{e9}t", "\u{1F511}webauthn.get", "webauthn,get", "xebauthn.get", "webauthn.geu", "w", "webauthn.get.get"] {
         let okk = matches!(cx.lib.try_type_chk(&Bytes::from_slice(e, ty.as_bytes())), Ok(Ok(())));
         let call = format!("TypeChk {}", tr.bs(ty.as_bytes()));
         tr.push(out, &format!("type/{}", if okk { "ok" } else { "fail" }), call, if okk { "(Ok OUnit)".into() } else { "Fail".into() });
@@ -708,6 +951,8 @@ fn main() {
     let e = Env::default();
     e.cost_estimate().budget().reset_unlimited();
     e.cost_estimate().disable_resource_limits();
+    // long ledger advances happen between calls: the registered contracts must outlive them
+    e.ledger().with_mut(|l| { l.sequence_number = 1000; l.min_persistent_entry_ttl = 3_000_000_000; l.min_temp_entry_ttl = 16; l.max_entry_ttl = 3_100_000_000; });
     let lib_id = e.register(Lib, ());
     let wa_id = e.register(wa_ex::WebauthnVerifierContract, ());
     let ed_id = e.register(ed_ex::Ed25519VerifierContract, ());
@@ -721,9 +966,9 @@ fn main() {
     let thorough = out.cfg.thorough;
     let scale = out.cfg.scale as usize;
     small_calls(&cx, &mut out, &mut rng, thorough);
-    let nwa = if thorough { 160 } else { 14 } * scale;
+    let nwa = if thorough { 64 } else { 14 } * scale;
     for i in 0..nwa { let mut r = rng.fork(i as u64); wa_trace(&cx, &mut out, &mut r, thorough, i); }
-    let ned = if thorough { 60 } else { 6 } * scale;
+    let ned = if thorough { 24 } else { 6 } * scale;
     for i in 0..ned { let mut r = rng.fork(1000 + i as u64); ed_trace(&cx, &mut out, &mut r, 8); }
     out.finish();
 }
